@@ -105,8 +105,10 @@ pub static HARNESS_TOP_LEVEL: AtomicBool = AtomicBool::new(false);
 
 /// True on a thread that is already running under `run` (a nested `run` would tear the scheduler down).
 pub fn nested() -> bool {
-    ACTIVE.load(Ordering::Acquire) && me().is_some()
+    UNSCHEDULED.load(Ordering::Relaxed) || (ACTIVE.load(Ordering::Acquire) && me().is_some())
 }
+/// Engine B (Miri): plain std threads, no scheduler and no arena monitor at all.
+pub static UNSCHEDULED: AtomicBool = AtomicBool::new(false);
 static SCHED: Mutex<Option<Sched>> = Mutex::new(None);
 static CV: Condvar = Condvar::new();
 
